@@ -258,3 +258,79 @@ pub fn setup_decoys(done: &[u8]) -> Vec<GameState> {
     }));
     r.unwrap_or_default()
 }
+
+
+/// Synthetic twins that ARE judged (by the monitors that ask for them): consistent, plausible states built with
+/// the public constructors from the monitored state's own description.
+///   kind 1 "rebuilt": the very same state, re-assembled from its getters (same history list);
+///   kind 2 "saturated": the same state in a game in which every position a turn-ending action could create
+///          (the pass and every offered-by-the-rules step, push completion or pull) was the start of two earlier
+///          turns of the opponent (entries at the opponent's places in the history, fillers in between);
+///   kind 4 "half-saturated": the same with every other of those positions.
+/// For kinds 2 and 4 only history-independent facts (and the internal agreement of lists, summaries and
+/// results) may be judged.
+pub fn judged_twins(g: &GameState, kinds: u8) -> Vec<(u8, GameState)> {
+    let r = std::panic::catch_unwind(std::panic::AssertUnwindSafe(|| {
+        if !g.is_play_phase() || kinds == 0 {
+            return vec![];
+        }
+        let pp = g.unwrap_play_phase();
+        let gold = g.is_p1_turn_to_move();
+        let moveno = g.move_number();
+        let step = g.current_step();
+        let board = decode_board(g.piece_board());
+        let prev: Vec<MBoard> = (0..step).map(|i| decode_board(g.piece_board_for_step(i))).collect();
+        let status = pp.push_pull_state();
+        let pend = decode_pend(status);
+        let trapped = pp.piece_trapped_this_turn();
+        let mut out = vec![];
+        if kinds & 1 != 0 {
+            out.push((1u8, build(gold, moveno, step, &board, &prev, status, trapped, pp.hash_history().clone())));
+        }
+        if kinds & 6 != 0 && !trapped {
+            let newest = match pp.hash_history().head() {
+                Some(z) => *z,
+                None => return out,
+            };
+            let mut targets: Vec<Zobrist> = vec![];
+            // (the present board with the other side to move is among them at every step)
+            targets.push(Zobrist::from_piece_board(piece_board_of(&board).piece_board(), !gold, 0));
+            for c in board.legal(gold, step.min(3) as u8, pend).iter() {
+                if is_step(c) {
+                    if let Some(a) = board.apply(gold, pend, code_sq(c), code_dir(c)) {
+                        targets.push(Zobrist::from_piece_board(piece_board_of(&a.board).piece_board(), !gold, 0));
+                    }
+                }
+            }
+            for kind in [2u8, 4u8] {
+                if kinds & kind == 0 {
+                    continue;
+                }
+                // oldest first: fillers at the mover's places, each target twice at the opponent's places
+                let mut entries_oldest_first: Vec<Zobrist> = vec![];
+                let mut k = 0usize;
+                for (i, t) in targets.iter().enumerate() {
+                    if kind == 4 && i % 2 == 1 {
+                        continue;
+                    }
+                    for _ in 0..2 {
+                        let mut db = MBoard::empty();
+                        db.0[k % 64] = cell((k / 64 % 6) as u8, true);
+                        db.0[(k * 11 + 5) % 64] = cell(((k / 3) % 6) as u8, false);
+                        entries_oldest_first.push(Zobrist::from_piece_board(piece_board_of(&db).piece_board(), gold, 0));
+                        entries_oldest_first.push(*t);
+                        k += 1;
+                    }
+                }
+                entries_oldest_first.push(newest);
+                let mut l = List::new();
+                for z in entries_oldest_first {
+                    l = l.append(z);
+                }
+                out.push((kind, build(gold, moveno, step, &board, &prev, status, trapped, l)));
+            }
+        }
+        out
+    }));
+    r.unwrap_or_default()
+}
